@@ -43,6 +43,10 @@ def member_collision(v, depth=0):
         if any(a == b and type(a) is type(b) or (isinstance(a, (int, float)) and isinstance(b, (int, float)) and a == b)
                for a in vals for b in plain) or len(set(map(repr, vals))) < len(vals):
             return True
+        # the same at any depth inside the members: (E.A, E.A) next to ('a', E.A), frozenset({1}) next to (1,)
+        imgs = [repr(S._json_image(x)) for x in v]
+        if len(set(imgs)) < len(imgs):
+            return True
     if isinstance(v, (list, tuple, set, frozenset)):
         return any(member_collision(x, depth + 1) for x in v)
     if isinstance(v, dict):
